@@ -31,13 +31,33 @@ class Result:
         self.raw = None
 
 
+# presentation of an input, varied as a deterministic function of the input (see adapters.dict_order_of): gene families
+# spelled with multi-character names one of which is a textual prefix of another, and object ancestors that all carry the
+# same label (as when support values are read as names) - neither may influence a result
+FAMILY_ALIAS = {"a": "g1", "b": "g10", "c": "g2", "d": "g20", "z": "g100"}
+FAMILY_ALIAS_INV = {v: k for k, v in FAMILY_ALIAS.items()}
+
+
+def presentation_of(leafmap):
+    order = A.dict_order_of(leafmap)
+    return {"alias": order == "mid", "same_labels": order == "rev"}
+
+
 def run_labelled(algo, O, S, leafmap, leafsyn, costs, policy, rootsyn=None, keep_raw=False, session=None):
     fn, model, _ = SOLVERS[algo]
     is_ord = model == "ordered"
+    pres = {"alias": False, "same_labels": False}
     if session is not None:
         inp, onode, snode = session.set(leafmap, costs, leafsyn, rootsyn)
     else:
-        inp, onode, snode = A.build_input(O, S, leafmap, costs, leafsyn, unordered=not is_ord, rootsyn=rootsyn)
+        pres = presentation_of(leafmap)
+        ls, rs, onames = leafsyn, rootsyn, None
+        if pres["alias"]:
+            ls = {v: tuple(FAMILY_ALIAS[f] for f in x) for v, x in leafsyn.items()}
+            rs = None if rootsyn is None else tuple(FAMILY_ALIAS[f] for f in rootsyn)
+        if pres["same_labels"] and O.is_binary() and S.is_binary():
+            onames = {v: ("90" if O.children[v] else f"o{v}") for v in range(O.n)}
+        inp, onode, snode = A.build_input(O, S, leafmap, costs, ls, unordered=not is_ord, rootsyn=rs, onames=onames)
     r = Result()
     try:
         outs = list(fn(inp, A.POLICY[policy]))
@@ -51,6 +71,9 @@ def run_labelled(algo, O, S, leafmap, leafsyn, costs, policy, rootsyn=None, keep
         try:
             m = A.mapping_of(out, onode, snode)
             lab = A.labelling_of(out, onode, is_ord)
+            if pres["alias"]:
+                lab = {k: (tuple(FAMILY_ALIAS_INV[f] for f in x) if is_ord else frozenset(FAMILY_ALIAS_INV[f] for f in x))
+                       for k, x in lab.items()}
             c = A.impl_cost(out.cost())
             flag = out.ordered
         except Exception as exc:
